@@ -1228,9 +1228,28 @@ class Engine:
                 ib = [L.res(o.ty).bits for o in ins.ops[1:]]
                 loc[ins.res] = s.gep(st, base, ins.extra['base'], idx, ib); continue
             if op == 'load':
+                if ins.extra and ins.extra.get('atomic') and st.foot is not None and st.foot.get('on'): st.foot['atomics'].add('atomic load')
                 loc[ins.res] = s.load(st, s.val(st, fr, ins.ops[0]), ins.ty, stack); continue
             if op == 'store':
+                if ins.extra and ins.extra.get('atomic') and st.foot is not None and st.foot.get('on'): st.foot['atomics'].add('atomic store')
                 s.store(st, s.val(st, fr, ins.ops[1]), ins.ops[0].ty, s.val(st, fr, ins.ops[0]), stack); continue
+            if op in ('atomicrmw', 'cmpxchg'):
+                # executed sequentially (single-threaded semantics); inside a C16 region they are recorded as shared state
+                if st.foot is not None and st.foot.get('on'): st.foot['atomics'].add(op)
+                p_ = s.val(st, fr, ins.ops[0]); ty_ = ins.ops[1].ty; old_ = s.load(st, p_, ty_, stack)
+                bits_ = s.L.res(ty_).bits if s.L.res(ty_).k == 'int' else 64
+                if op == 'atomicrmw':
+                    v_ = s.val(st, fr, ins.ops[1]); k_ = ins.extra['rmw']
+                    if k_ == 'xchg': new_ = v_
+                    elif k_ in ('add', 'sub', 'and', 'or', 'xor'): new_ = s.binop(st, k_, old_, v_, s.L.res(ty_))
+                    else: raise Inconclusive('atomicrmw ' + k_)
+                    s.store(st, p_, ty_, new_, stack); loc[ins.res] = old_
+                else:
+                    e_ = s.val(st, fr, ins.ops[1]); n_ = s.val(st, fr, ins.ops[2])
+                    eq_ = s.icmp(st, 'eq', old_, e_, s.L.res(ty_))
+                    s.store(st, p_, ty_, s.select(st, eq_, n_, old_, s.L.res(ty_)) if not isinstance(eq_, int) else (n_ if eq_ else old_), stack)
+                    loc[ins.res] = Agg([old_, eq_])
+                continue
             if op in ('zext', 'sext', 'trunc'):
                 v = s.val(st, fr, ins.ops[0]); ft = L.res(ins.extra['from']); tt = L.res(ins.ty)
                 if ft.k == 'vector':
